@@ -20,7 +20,8 @@ def open_tree(path, stop):
         p = os.path.dirname(p)
 
 
-def run_cases(b, cases, workdir, fmt=b"%{uid}/%{euid}:%{cmdline}", overflow=False):
+# %{noop} expands to nothing; the name exists in all three registries (filter, data source, output), which is what it is here for
+def run_cases(b, cases, workdir, fmt=b"%{uid}/%{euid}:%{noop}%{cmdline}", overflow=False):
     """cases: list of (label, chain bytes, ruid, euid, tty bool). -> {label: dict(logged=bool, other_output=..., n_real=int, crashed=...)}"""
     workers = c.NCPU
     batches = [cases[i::workers] for i in range(workers)]
@@ -38,7 +39,11 @@ def run_cases(b, cases, workdir, fmt=b"%{uid}/%{euid}:%{cmdline}", overflow=Fals
         s = drv.Script().add("childtimeout", 10)
         s.add("sinkfile", "file", drv.hx(ctx.log)).add("sinkstd").add("sinkdevlog", "devlog", drv.hx(ctx.devlog)).add("ptypair")
         s.path(ctx.helper).argv([b"prog", b"x" * 300] if overflow else [b"prog", b"x"]).envp([b"A=1"]).add("ret", -1, 2).add("snap", 0)
+        want = {}
         for label, chain, ruid, euid, tty in batches[i]:
+            h0 = sum(label.encode())
+            if not (overflow and h0 % 4 == 1):
+                want[label] = b"%d/%d:prog %s\n" % (ruid if ruid is not None else 0, euid if ruid is not None else 0, b"x" * 300 if overflow else b"x")
             ini = b'[snoopy]\nmessage_format = "' + fmt + b'"\noutput = file:' + ctx.log + b'\nfilter_chain = "' + chain + b'"\n'
             if sum(label.encode()) % 2:
                 ini += b"error_logging = yes\n"        # a dropped call stays silent with error logging on, too
@@ -70,7 +75,7 @@ def run_cases(b, cases, workdir, fmt=b"%{uid}/%{euid}:%{cmdline}", overflow=Fals
             ev = e["ev"]
             if ev == "mark" and e["label"].startswith("item:"):
                 cur = e["label"][5:]
-                res[cur] = dict(logged=False, other=[], n_real=0, record=b"", errors=[])
+                res[cur] = dict(logged=False, other=[], n_real=0, record=b"", errors=[], want=want.get(cur))
             elif cur is None:
                 continue
             elif ev == "error":
@@ -125,4 +130,6 @@ def judge(o, expect_pass):
         return "output outside the configured file: %r" % (o["other"][:2],)
     if o["logged"] != expect_pass:
         return "the call was %s but the chain decides %s" % ("logged" if o["logged"] else "not logged", "pass" if expect_pass else "drop")
+    if o["logged"] and o.get("want") is not None and o["record"] != o["want"]:
+        return "the record is %r, the format expands to %r" % (o["record"][:80], o["want"][:80])
     return None
